@@ -13,11 +13,19 @@ TARGET_FUNCS = {"__enter__", "__exit__", "inject", "convert_field_name", "conver
 
 
 class Baton:
-    def __init__(self, n, rng=None, mean_gap=50, p_target=0.0, replay=None, max_steps=5_000_000):
+    def __init__(self, n, rng=None, mean_gap=50, p_target=0.0, replay=None, max_steps=5_000_000, p_first=0.0):
         self.n = n
         self.rng = rng
         self.mean_gap = max(1, mean_gap)
         self.p_target = p_target
+        # bias: pre-empt within the first lines of a function the first time ANY thread executes it in this run
+        # (lazy initialisation, first-use caches: the window of a publication race is in the first execution)
+        self.p_first = p_first
+        self.seen_codes = set()
+        # "stalled node" fault: a thread pre-empted by a targeted / first-call switch may be kept off the CPU for a while,
+        # so that the other threads pass through the same code while it sits in its window
+        self.stall_pending = 0
+        self.stalled_until = [0] * n
         # replay: {"first": k, "switches": [[step, from, to], ...], "handoffs": {"from": to}}
         self.replay = None if replay is None else {int(x[0]): int(x[-1]) for x in replay.get("switches", [])}
         self.replay_handoffs = {} if replay is None else {int(k): int(v) for k, v in replay.get("handoffs", {}).items()}
@@ -50,7 +58,9 @@ class Baton:
         self.next_switch = self.step + 1 + int(self.rng.expovariate(1.0 / self.mean_gap))
 
     def _runnable_others(self, me):
-        return [i for i in range(self.n) if i != me and not self.done[i]]
+        others = [i for i in range(self.n) if i != me and not self.done[i]]
+        awake = [i for i in others if self.stalled_until[i] <= self.step]
+        return awake or others
 
     def _switch_to(self, me, to, frame=None):
         self.switches.append([self.step, me, to])
@@ -83,7 +93,13 @@ class Baton:
             others = self._runnable_others(me)
             self._draw_gap()
             if others:
+                if self.stall_pending:
+                    self.stalled_until[me] = self.step + self.stall_pending
+                    self.stall_pending = 0
+                    self.probe["stalls"] = self.probe.get("stalls", 0) + 1
                 self._switch_to(me, self.rng.choice(others), frame)
+            else:
+                self.stall_pending = 0
 
     # ---- tracing ---------------------------------------------------------------------------------------------
     def _make_tracer(self, me):
@@ -121,6 +137,13 @@ class Baton:
             if self.replay is None and self.p_target and name in TARGET_FUNCS \
                     and self.rng.random() < self.p_target:
                 self.next_switch = min(self.next_switch, self.step + 1 + self.rng.randrange(3))
+            if self.replay is None and self.p_first and code not in self.seen_codes:
+                self.seen_codes.add(code)
+                if self.rng.random() < self.p_first:
+                    self.next_switch = min(self.next_switch, self.step + 1 + self.rng.randrange(6))
+                    if self.rng.random() < 0.7:
+                        self.stall_pending = self.rng.choice([30, 300, 3000, 30000])
+                    self.probe["first_call_preemptions"] = self.probe.get("first_call_preemptions", 0) + 1
             return local
 
         return glob
